@@ -15,7 +15,7 @@ FEATURE_SETS = {
     'hr': '"hot-reloading", "utils"',
     'hr-pl': '"hot-reloading", "utils", "parking_lot"',
 }
-PROP_OF = {'W1a': 'C01', 'W1a2': 'C01', 'W1b': 'C01', 'W1c': 'C01', 'W7a': 'C07', 'W7b': 'C07', 'W7c': 'C07', 'W10a': 'C10', 'W10b': 'C10',
+PROP_OF = {'W1a': 'C01', 'W1a2': 'C01', 'W1b': 'C01', 'W1c': 'C01', 'W7a': 'C07', 'W7b': 'C07', 'W7c': 'C07', 'W7d': 'C07', 'W7e': 'C07', 'W10a': 'C10', 'W10b': 'C10',
            'W13': 'C13', 'W16': 'C16', 'W16b': 'C16', 'W17': 'C17', 'W17b': 'C17'}
 
 
@@ -23,7 +23,8 @@ DOC = {
     'W1a': 'a &Handle cannot be held across AssetCache::remove (E0502)', 'W1a2': 'nor across LocalAssetCache::clear (E0502)',
     'W1b': 'a handle cannot outlive its cache (E0597)', 'W1c': 'same through AnyCache (E0597)',
     'W7a': 'enhance_hot_reloading needs a &\'static cache (E0597)', 'W7b': 'a read guard cannot outlive its cache (E0505)',
-    'W7c': 'a mapped guard keeps the borrow (E0502)', 'W10a': 'Handle::<String>::get does not exist (E0599)',
+    'W7c': 'a mapped guard keeps the borrow (E0502)', 'W7d': 'the argument of map\'s closure cannot escape it (E0521)',
+    'W7e': 'the argument of try_map\'s closure cannot escape it (E0521)', 'W10a': 'Handle::<String>::get does not exist (E0599)',
     'W10b': 'NotHotReloaded with HOT_RELOADED = true fails to build when get() is used (E0080)',
     'W13': 'downcast_ref yields an Option, not a handle (E0308)', 'W16': 'SharedBytes cannot be indexed mutably (E0594)',
     'W16b': 'SharedString has no &mut str access (E0596)', 'W17': 'OnceInitCell<_, !Sync> is not Sync (E0277)',
